@@ -17,7 +17,7 @@ PROPERTIES_V = 'theories/C06/Properties.v'
 IMPORTS = 'Require Import FV.Base.F64 FV.Base.PyVal FV.C01.Model FV.Gen.C06 FV.C06.Model FV.C06.Run.'
 CASE_TYPE = 'case'
 CHECK = 'check_case'
-SHARD_SIZE = 60
+SHARD_SIZE = 30
 RULE = ('a case = a node of 1..3 generated module classes (base Module/Readable/Writable/Drivable, 0..2 generated Feature '
         'mixins, module export flag, group, visibility) with 1..5 own accessibles each (parameters of the datatypes double, int, '
         'scaled, bool, enum, string, fixed-length array of int, struct of leaves, with units containing $, readonly, constant '
